@@ -49,4 +49,13 @@ canary text-roundtrip-ignoring-legacy-alias C06 'verifLemmaTextRoundTrip' \
 canary text-roundtrip-limit-off-by-one C06 'verifLemmaTextRoundTrip' \
   '//@   ensures len(v) > maxLen ==> result1 != nil' \
   '//@   ensures len(v) >= maxLen ==> result1 != nil'
+canary errorcode-roundtrip-off-by-one C06 'verifLemmaErrorCodeRoundTrip' \
+  'result1 == nil && result0.Code == c.Code && len(result0.Reason) == len(c.Reason)' \
+  'result1 == nil && result0.Code == c.Code + 1 && len(result0.Reason) == len(c.Reason)'
+canary unknown-attrs-roundtrip-without-precondition C06 'verifLemmaUnknownAttrsRoundTrip' \
+  ' && region(a) != region(m.Raw) && !Has(m, 0x000A)' \
+  ' && region(a) != region(m.Raw)'
+canary mapped-addr-roundtrip-wrong-byte C06 'verifLemmaMappedAddrRoundTrip' \
+  'len(result0.IP) == 16 && Eq16(result0.IP, a.IP)' \
+  'len(result0.IP) == 16 && Eq16(result0.IP, a.IP) && result0.IP[3] == old(a.IP[2])'
 exit $bad
